@@ -1282,6 +1282,29 @@ pub fn run_property(prop: &'static str, cfg: &Config) -> PropRun {
             );
             if cfg.only_spaces.is_empty() {
                 report.absorb(c16_keyword_runs(cfg, &ex));
+                // generated programs: every statement and built-in of the construct grammar
+                let mut progs = crate::grammar::programs(2, false);
+                progs.extend(crate::grammar::rare_programs(" "));
+                if cfg.tier != Tier::Quick {
+                    progs.extend(crate::grammar::rare_programs("/*c*/ "));
+                }
+                report.absorb(ex.run_list(
+                    "G programs (chains of depth<=2, rare contexts) x case variants",
+                    progs.len() as u64,
+                    |i, buf| buf.push_str(&progs[i as usize]),
+                    |local, input, _| match c16_check(input, Some(local)) {
+                        None => {
+                            local.unobservable += 1;
+                            Visit { cfg: None, nontrivial: false }
+                        }
+                        Some(sigs) => {
+                            for s in sigs {
+                                local.finding(format!("C16 {s}"), input);
+                            }
+                            Visit { cfg: None, nontrivial: true }
+                        }
+                    },
+                ));
             }
             report.distinct_nontrivial = ex.distinct_nontrivial.load(std::sync::atomic::Ordering::Relaxed);
             PropRun {
